@@ -199,6 +199,15 @@ def handler (prop : String) (wrong : Bool) : Handler DState where
         ({ st with m := .live (init cfg), mon := Monitors.MonState.init cfg }, .ok)
       | _, _, _, _ => (st, .bad "new")
     | ["note", _] => (st, .ok)
+    | ["snap"] =>
+      -- debugging aid (replay files only): print the model's view next to the implementation's
+      match st.m with
+      | .live s =>
+        let groups := s.shared.map (fun (n, g) => s!"{n}:clients={g.clients},idx={g.idx},cursor={g.cursor}")
+        let trk := (s.conns.entries.zipIdx).filterMap (fun (c, i) => c.map (fun c =>
+          s!"{i}:{repr c.tracker.status}:{c.tracker.requests.map (fun r => (r.filter, r.cursor))}:inflight={c.out.inflight.length}"))
+        (st, .bad s!"SNAP ready={s.readyqueue} groups={groups} trackers={trk}")
+      | _ => (st, .ok)
     | ["idle"] =>
       match st.m with
       | .live _ =>
